@@ -213,6 +213,8 @@ def parse_inductive(C, v: ast.expr, n: str, label_names: set[str]):
     parts = concat_parts(v)
     if not parts:
         return ("odd", f"`{norm(v, 80)}` is not read")
+    # the separator taken from n.rpartition('.') is '.' wherever the name has a parent (and the parent's label can be read at all)
+    parts = _merge(["." if isinstance(x, ast.expr) and _separator_of(x, n) else x for x in parts])
     head = parts[0]
     src = parent_label(C, head, n, label_names) if isinstance(head, ast.expr) else None
     if src is None:
